@@ -502,12 +502,8 @@ func genAliasTwin(r *rand.Rand) (*Universe, Opts) {
 	slots := r.Perm(3)[:n]
 	ranges := []string{"1.0.0", "^1.0.0", "~1.0.0", "~2.0.0", "^2.0.0", "2.0.0", "^3.0.0", "3.0.0"}
 	secs := map[string][]string{}
-	// all copies of the package go into "dependencies": the reader merges devDependencies and
-	// optionalDependencies into the requirement list by PackageKey alone (the alias is not part of
-	// that lookup), iterating over Go maps - a copy in those sections replaces another copy, and
-	// which one survives differs from read to read (observed on the unchanged tree; reported). The
-	// other package of the universe may sit in either section.
-	twinSec := "dependencies"
+	// the copies are spread over dependencies, devDependencies and optionalDependencies (since fix
+	// a65362a4 the reader keeps one requirement per package + alias whatever the section)
 	used := map[string]bool{}
 	for _, s := range slots {
 		req := pick(r, ranges)
@@ -518,6 +514,7 @@ func genAliasTwin(r *rand.Rand) (*Universe, Opts) {
 		if names[s] != p {
 			req = "npm:" + p + "@" + req
 		}
+		twinSec := pick(r, []string{"dependencies", "dependencies", "devDependencies", "optionalDependencies"})
 		secs[twinSec] = append(secs[twinSec], fmt.Sprintf("    %q: %q", names[s], req))
 	}
 	if r.Intn(2) == 0 {
@@ -526,7 +523,7 @@ func genAliasTwin(r *rand.Rand) (*Universe, Opts) {
 	}
 	var ms strings.Builder
 	ms.WriteString("{\n  \"name\": \"root\",\n  \"version\": \"1.0.0\"")
-	for _, sec := range []string{"dependencies", "devDependencies"} {
+	for _, sec := range []string{"dependencies", "devDependencies", "optionalDependencies"} {
 		if len(secs[sec]) > 0 {
 			ms.WriteString(",\n  \"" + sec + "\": {\n" + strings.Join(secs[sec], ",\n") + "\n  }")
 		}
@@ -550,7 +547,7 @@ func genAliasTwin(r *rand.Rand) (*Universe, Opts) {
 		}
 		u.Vulns = append(u.Vulns, v)
 	}
-	o := Opts{Strategy: "relax", DevDeps: true, MaxDepth: -1, MaxUpgrades: pick(r, []int{1, 1, 0})}
+	o := Opts{Strategy: "relax", DevDeps: r.Intn(4) != 0, MaxDepth: -1, MaxUpgrades: pick(r, []int{1, 1, 0})}
 	return u, o
 }
 
